@@ -518,22 +518,28 @@ class RealizeMemrefCasts(RewritePattern):
         # insert "copy to" for first use as input
         # walk parent op in order to find first use as input
         assert op.parent
-        for use_op in op.parent.walk():
-            if use_op not in uses:
-                continue
-            # check if input
-            is_input = False
-            if isinstance(use_op, linalg.GenericOp):
-                # don't know if input or output, default to yes
-                is_input = op.results[0] in use_op.inputs
-            elif isinstance(use_op, dart.StreamingRegionOpBase):
-                is_input = op.results[0] in use_op.inputs
-            else:
-                is_input = True
-            if is_input:
-                # insert copy op
+
+        def is_input_use(use_op: Operation) -> bool:
+            if isinstance(use_op, linalg.GenericOp | dart.StreamingRegionOpBase):
+                return op.results[0] in use_op.inputs
+            # don't know if input or output, default to yes
+            return True
+
+        if any(is_input_use(use_op) for use_op in uses):
+            # the data must be in place before the very first use of any kind: an earlier writer must
+            # not be overwritten by a copy that is placed in front of a later reader. The copy goes in
+            # front of the op of this block that contains that use, so that it also runs when the use
+            # sits in a nested region that is executed zero times.
+            for use_op in op.parent.walk():
+                if use_op not in uses:
+                    continue
+                anchor = use_op
+                while anchor.parent is not op.parent:
+                    parent_op = anchor.parent_op()
+                    assert parent_op is not None
+                    anchor = parent_op
                 copy_op = memref.CopyOp(source_op.source, op.dest)
-                rewriter.insert_op(copy_op, InsertPoint.before(use_op))
+                rewriter.insert_op(copy_op, InsertPoint.before(anchor))
                 break
 
         # insert "copy from" for last use as output
